@@ -77,6 +77,8 @@ func familyC16(thorough bool) []*scen.Cell {
 					} else {
 						decl += "type S struct {\n\tF " + st + "\n\tF2 " + st + "\n\tK int\n}\n\ntype D struct {\n\tF " + dt + "\n\tF2 " + dt + "\n\tK int\n}\n"
 					}
+					// (a second converter interface that sorts first and switches every interface-level notation on: nothing of it may leak)
+					decl += "\n" + decoyInterface
 					setup := scen.SetupFile(true, decl, nil, []scen.MethodDecl{
 						{Notations: scen.Toggles(0, getter, 0, tcast, 0), Sig: "Conv(*S) *D"},
 						{Notations: append([]string{":style arg"}, scen.Toggles(0, getter, 0, tcast, 0)...), Sig: "Fill(*S) *D"},
